@@ -182,6 +182,13 @@ def parseOp : R POp := do
   | "PL" => do
     let dst ← nat; let a ← nat; let b ← nat
     pure { op := Op.concatPlus dst a b, dst }
+  | "PA" => do
+    -- `dst = a + b` assigned to an existing particle set (the harness skips otherwise)
+    let dst ← nat; let a ← nat; let b ← nat
+    pure { op := Op.concatPlus dst a b, dst,
+           ok := fun p => match p dst with
+             | some x => x.kind == Kind.ps
+             | none => false }
   | "WM" => do
     let s ← nat; let mode ← nat; let i ← nat; let j ← nat; let v ← flt
     pure { op := Op.writeMean s i j v, dst := s, ok := gaussianOnly s i mode }
